@@ -649,3 +649,34 @@ func NearValid(j int) string {
 	}
 	return b.String()
 }
+
+// Formats builds a program that hands the printf family format strings of every shape - complete,
+// incomplete (a % followed only by flags, width or precision), unknown verbs, indexed and starred
+// arguments, a lone % at the end - with fewer, exactly enough and more arguments than verbs, from
+// literals and from input.
+func Formats(r *prng.R) (string, []string) {
+	fs := []string{"%5", "%-", "%.2", "% ", "50% 0", "%", "100%", "%%", "%[2]v", "%[9]v", "%*v", "%!", "%v %", "%5.", "%+", "%#", "%0", "%v%", "%v %-", "%08.3f", "%-8s|", "%q", "%x", "%c", "%U", "%t",
+		"%e", "%g", "%b", "%o", "%p", "%T", "%d %d %d", "%s", "", "no verbs", "%v %v", "%.f", "%.", "%1", "%10", "%-10", "%+.", "% d", "%#x", "%5%", "%z", "%é", "%\\n", "a%5"}
+	args := []string{"", "1", "1 2", "\"s\"", "true 2.5", "[1 2]", "{a:1}", "1 \"s\" true [1]", "(0/0)", "\"é\" 65"}
+	var b strings.Builder
+	var inputs []string
+	b.WriteString("x:any\nx = 7\n")
+	for i := r.Range(3, 7); i > 0; i-- {
+		f, a := fs[r.Intn(len(fs))], args[r.Intn(len(args))]
+		switch r.Intn(5) {
+		case 0:
+			fmt.Fprintf(&b, "printf %q %s\n", f, a)
+		case 1:
+			fmt.Fprintf(&b, "print (sprintf %q %s) \"|\"\n", f, a)
+		case 2:
+			fmt.Fprintf(&b, "f%d := read\nprintf f%d %s\nprint (len (sprintf f%d x %s))\n", i, i, a, i, a)
+			inputs = append(inputs, f)
+		case 3:
+			fmt.Fprintf(&b, "test 1 1 %q %s\ntest 1 2 %q %s\n", f, a, f, a)
+		default:
+			fmt.Fprintf(&b, "s%d := sprintf (%q + %q) %s x\nprint s%d (len s%d)\n", i, f, fs[r.Intn(len(fs))], a, i, i)
+		}
+	}
+	b.WriteString("print \"end\" x\n")
+	return b.String(), inputs
+}
